@@ -77,6 +77,15 @@ package httpgen
 //@   at-call writeProtoMessageResponse requires hook_or_default: arg2 == ite(handler == nil || lastNil("handler"), defaultErrorResponse(err), lastRetIface("handler"))
 //@   at-call writeProtoMessageResponse requires default_status: arg3 == defaultErrorStatusCode(err)
 
+// the writer handed to an error hook records every body write and every status write (C10: a hook that writes the response
+// itself has produced the complete response; writeErrorWithHandler decides on these two flags)
+//@ emitted func (rc *responseCapture) Write(b []byte) (n int, err error)
+//@   modifies *
+//@   ensures records_body: rc.written
+//@ emitted func (rc *responseCapture) WriteHeader(code int)
+//@   modifies *
+//@   ensures records_status: rc.wroteHeader
+
 //@ emitted func defaultErrorResponse(err error) (r proto.Message)
 //@   pure
 //@   requires !isNil(err)
